@@ -21,18 +21,20 @@ echo "clean:   $clean"; echo "patched: $patched"; echo "baseline(with patch): $b
 # the property's quick check against the change: the scratch worktree is brought to /repo's HEAD plus the patch
 # (VCHECK_REPO), so that /repo itself is never touched and checks running elsewhere are not disturbed
 git checkout -q -- . && git checkout -q --detach $(git -C /repo rev-parse HEAD) && git apply $S/patch.diff || { echo "patch does not apply to /repo HEAD"; exit 2; }
-cd /verif
-VCHECK_REPO=$W ./bin/vcheck run $P ${EVAL_ARGS} > /tmp/evalseed-$ID.log 2>&1; rc=$?
+cd ${VDIR:-/verif}   # VDIR: a frozen copy of /verif, so that the harness sources can be edited while evaluations run
+VCHECK_REPO=$W ./bin/vcheck run ${CHECK:-$P} ${EVAL_ARGS} > /tmp/evalseed-$ID.log 2>&1; rc=$?
 git -C $W checkout -q -- .
+P0=$P; P=${CHECK:-$P}
 classes=$(grep '^violation class' /tmp/evalseed-$ID.log | sed 's/violation class \([^ ]*\) (\([0-9]*\) runs.*/\1:\2/' | tr '\n' ' ')
 summary=$(grep "^vcheck: $P" /tmp/evalseed-$ID.log | tail -1)
 echo "check exit=$rc classes: $classes"; echo "$summary"
+P=$P0
 python3 - "$ID" "$P" "$S/meta.json" "$clean" "$patched" "$base" "$rc" "$classes" "$summary" "$files" <<'PY'
 import json,sys
 id,p,meta,clean,patched,base,rc,classes,summary,files=sys.argv[1:]
 m=json.load(open(meta))
 m.update({"id":id,"property":p,"origin":"independent sub-agent given only the property text and a scratch worktree","files_changed":files.split(),
  "confirmed":{"demo_on_clean_tree":clean.strip(),"demo_with_patch":patched.strip(),"build_and_package_tests_with_patch":base.strip()},
- "quick_check":{"command":"./bin/vcheck run %s --tier quick"%p,"exit":int(rc),"violation_classes":classes.split(),"summary":summary.strip(),"caught":int(rc)==1}})
+ "quick_check":{"command":"./bin/vcheck run %s --tier quick"%(__import__('os').environ.get('CHECK') or p),"exit":int(rc),"violation_classes":classes.split(),"summary":summary.strip(),"caught":int(rc)==1}})
 json.dump(m,open('/verif/seeded/%s/meta.json'%id,'w'),indent=1)
 PY
